@@ -19,6 +19,7 @@ import (
 	"strings"
 	"sync"
 	"time"
+	"unsafe"
 )
 
 // Waiter is what a blocked thread waits for. Ready must be side-effect free.
@@ -187,6 +188,8 @@ type Sched struct {
 	aborting bool
 	done     chan struct{}
 	closed   map[uintptr]any
+	rv       map[uintptr]*rendez   // unbuffered channels: parked senders, deposited values, waiting receivers
+	pend     map[*Thread]*pendSend // the unbuffered send a thread is in the middle of (between SendCh and SendDone)
 	crash    *CrashInfo
 	blocked  []string
 	diverge  int
@@ -804,7 +807,7 @@ func isClosed(ch any) bool {
 type chanW[T any] struct{ ch <-chan T }
 
 //go:norace
-func (w chanW[T]) Ready() bool { return len(w.ch) > 0 || isClosed(w.ch) }
+func (w chanW[T]) Ready() bool { return len(w.ch) > 0 || isClosed(w.ch) || rvHasSender(w.ch) }
 
 // RecvCh is wrapped around the operand of every receive expression: it is the
 // scheduling point of the receive, parks the thread until ch has a value or is
@@ -813,6 +816,16 @@ func RecvCh[T any](ch <-chan T) <-chan T {
 	if InThread() {
 		if ch == nil {
 			Block(Never, -1, "recv(nil chan)")
+		} else if cap(ch) == 0 {
+			r := rvOf(ch)
+			r.waiting++
+			Block(chanW[T]{ch}, -1, "recv")
+			r.waiting--
+			if InThread() {
+				if c := takeSender[T](ch); c != nil {
+					return c
+				}
+			}
 		} else {
 			Block(chanW[T]{ch}, -1, "recv")
 		}
@@ -838,20 +851,134 @@ func Close[T any](ch chan T) {
 	close(ch)
 }
 
-type sendW[T any] struct{ ch chan T }
+type sendW[T any] struct{ ch chan<- T }
 
 //go:norace
 func (w sendW[T]) Ready() bool { return len(w.ch) < cap(w.ch) }
 
-// SendCh is wrapped around the channel operand of every send statement
-// (buffered channels only: an unbuffered rendezvous is not modelled and panics loudly).
-func SendCh[T any](ch chan T) chan T {
+// ---- unbuffered channels: the rendezvous is emulated ---------------------------------------------------
+//
+// Only one managed thread runs at a time, so a real send on an unbuffered channel could never meet its receiver. The
+// value of an unbuffered send travels through the scheduler instead: the statement `ch <- v` is rewritten to
+// `{ vsched.SendCh(ch) <- v; vsched.SendDone() }`; for an unbuffered ch, SendCh hands out a one-slot proxy that takes v
+// without blocking, and SendDone parks the thread as a sender (value attached) until a receiver has taken it. A receive
+// (`<-vsched.RecvCh(ch)`) is enabled by a parked sender and is handed a one-slot proxy holding that sender's value.
+// A select's send case on an unbuffered channel is ready when some thread is blocked with a receive interest in it; the
+// case body deposits the value for that receiver without parking (SendNowCh / SendNowDone).
+
+type rvSender struct {
+	box    any // *T
+	taken  bool
+	parked bool // false: deposited by a select case for a receiver that was already waiting
+	tok    byte // race detector: the send happens before the receive completes ...
+	rtok   byte // ... and the receive happens before the (parked) send completes
+}
+
+type rendez struct {
+	senders []*rvSender
+	waiting int
+}
+
+type pendSend struct {
+	ch  any
+	get func() any
+}
+
+//go:norace
+func rvOf(ch any) *rendez {
+	s := active
+	if s.rv == nil {
+		s.rv = map[uintptr]*rendez{}
+	}
+	k := chanKey(ch)
+	r := s.rv[k]
+	if r == nil {
+		r = &rendez{}
+		s.rv[k] = r
+	}
+	return r
+}
+
+//go:norace
+func rvHasSender(ch any) bool {
+	s := active
+	if s == nil || s.rv == nil {
+		return false
+	}
+	r := s.rv[chanKey(ch)]
+	return r != nil && len(r.senders) > 0
+}
+
+// rvWantsValue: some thread is blocked with a receive interest in ch and no deposited value is already on its way to it.
+//
+//go:norace
+func rvWantsValue(ch any) bool {
+	s := active
+	if s == nil || s.rv == nil {
+		return false
+	}
+	r := s.rv[chanKey(ch)]
+	if r == nil {
+		return false
+	}
+	dep := 0
+	for _, sd := range r.senders {
+		if !sd.parked {
+			dep++
+		}
+	}
+	return r.waiting > dep
+}
+
+//go:norace
+func takeSender[T any](ch <-chan T) <-chan T {
+	if !rvHasSender(ch) {
+		return nil
+	}
+	r := rvOf(ch)
+	sd := r.senders[0]
+	r.senders = r.senders[1:]
+	sd.taken = true
+	RaceAcquire(unsafe.Pointer(&sd.tok))
+	RaceRelease(unsafe.Pointer(&sd.rtok))
+	c := make(chan T, 1)
+	c <- *(sd.box.(*T))
+	return c
+}
+
+type sentW struct {
+	sd *rvSender
+	ch any
+}
+
+//go:norace
+func (w sentW) Ready() bool { return w.sd.taken || isClosed(w.ch) }
+
+func proxyFor[T any](ch chan<- T) chan<- T {
+	s := active
+	p := make(chan T, 1)
+	if s.pend == nil {
+		s.pend = map[*Thread]*pendSend{}
+	}
+	s.pend[s.cur] = &pendSend{ch: ch, get: func() any { v := <-p; return &v }}
+	return p
+}
+
+// SendCh is wrapped around the channel operand of every send statement; SendDone follows the statement.
+func SendCh[T any](ch chan<- T) chan<- T {
 	if InThread() {
 		if ch == nil {
 			Block(Never, -1, "send(nil chan)")
 		}
 		if cap(ch) == 0 {
-			panic("vsched.SendCh: unbuffered channel send is not modelled")
+			Yield("send(unbuffered)")
+			if !InThread() {
+				return make(chan T, 1)
+			}
+			if isClosed(ch) {
+				panic("send on closed channel")
+			}
+			return proxyFor(ch)
 		}
 		Block(sendW[T]{ch}, -1, "send")
 		return ch
@@ -860,6 +987,66 @@ func SendCh[T any](ch chan T) chan T {
 		return make(chan T, 1)
 	}
 	return ch
+}
+
+// SendDone completes the unbuffered send the current thread has just made through a proxy: the thread parks, value
+// attached, until a receiver has taken it.
+func SendDone() {
+	if !InThread() {
+		return
+	}
+	s := active
+	ps := s.pend[s.cur]
+	if ps == nil {
+		return
+	}
+	delete(s.pend, s.cur)
+	sd := &rvSender{box: ps.get(), parked: true}
+	RaceRelease(unsafe.Pointer(&sd.tok))
+	r := rvOf(ps.ch)
+	r.senders = append(r.senders, sd)
+	Block(sentW{sd, ps.ch}, -1, "send(unbuffered): waiting for a receiver")
+	if InThread() && !sd.taken {
+		panic("send on closed channel")
+	}
+	RaceAcquire(unsafe.Pointer(&sd.rtok))
+}
+
+// RecvNow is wrapped around the operand of the receive that is the communication of a chosen select case.
+func RecvNow[T any](ch <-chan T) <-chan T {
+	if InThread() && ch != nil && cap(ch) == 0 {
+		if c := takeSender[T](ch); c != nil {
+			return c
+		}
+	}
+	return ch
+}
+
+// SendNowCh / SendNowDone: the send that is the communication of a chosen select case.
+func SendNowCh[T any](ch chan<- T) chan<- T {
+	if InThread() && ch != nil && cap(ch) == 0 {
+		return proxyFor(ch)
+	}
+	if Aborting() {
+		return make(chan T, 1)
+	}
+	return ch
+}
+
+func SendNowDone() {
+	if !InThread() {
+		return
+	}
+	s := active
+	ps := s.pend[s.cur]
+	if ps == nil {
+		return
+	}
+	delete(s.pend, s.cur)
+	r := rvOf(ps.ch)
+	sd := &rvSender{box: ps.get()}
+	RaceRelease(unsafe.Pointer(&sd.tok))
+	r.senders = append(r.senders, sd)
 }
 
 // SendCase marks a select case as a send.
@@ -879,10 +1066,10 @@ func (w selW) readyIdx() int {
 			continue
 		}
 		if w.send[i] {
-			if c.Len() < c.Cap() {
+			if c.Len() < c.Cap() || (c.Cap() == 0 && rvWantsValue(c.Interface())) {
 				return i
 			}
-		} else if c.Len() > 0 || isClosed(c.Interface()) {
+		} else if c.Len() > 0 || isClosed(c.Interface()) || rvHasSender(c.Interface()) {
 			return i
 		}
 	}
@@ -901,10 +1088,10 @@ func (w selW) pick() int {
 			continue
 		}
 		if w.send[i] {
-			if c.Len() < c.Cap() {
+			if c.Len() < c.Cap() || (c.Cap() == 0 && rvWantsValue(c.Interface())) {
 				ready = append(ready, i)
 			}
-		} else if c.Len() > 0 || isClosed(c.Interface()) {
+		} else if c.Len() > 0 || isClosed(c.Interface()) || rvHasSender(c.Interface()) {
 			ready = append(ready, i)
 		}
 	}
@@ -940,7 +1127,22 @@ func Select(hasDefault bool, chans ...any) int {
 		Yield("select-default")
 		return w.pick()
 	}
+	// a thread parked in a select has a receive interest in each unbuffered channel of its receive cases
+	var interested []*rendez
+	for k, c := range w.chans {
+		if !w.send[k] && c.IsValid() && !c.IsNil() && c.Cap() == 0 {
+			r := rvOf(c.Interface())
+			r.waiting++
+			interested = append(interested, r)
+		}
+	}
 	Block(w, -1, "select")
+	for _, r := range interested {
+		r.waiting--
+	}
+	if !InThread() {
+		return -2
+	}
 	i := w.pick()
 	if i < 0 {
 		panic("vsched.Select: woken with no ready case")
